@@ -59,8 +59,12 @@ def run(ck: Checker):
         compose_fold.fold_miter(ck, 'C13.FOLD')
     except AnalysisError as e:
         pending = e   # the structural rules below still decide what they can; the fold's failure is reported afterwards
-    _structural(ck)
-    if pending is not None:
+    if pending is None:
+        # the fold decided the behaviour: the structural rules speak only where they recognise the code
+        with ck.soft('C13.FOLD'):
+            _structural(ck)
+    else:
+        _structural(ck)
         raise pending
 
 
@@ -195,9 +199,9 @@ def _structural(ck: Checker):
     sub = Checker(repo, 'C13', ck.tier)
     _c10.run(sub)
     for o in sub.obligations:
-        if o.rule in ('C10.BLOCK', 'C10.IFACE', 'C10.EMIT', 'C10.PURE'):
+        if o.rule in ('C10.BLOCK', 'C10.IFACE', 'C10.EMIT', 'C10.PURE', 'C10.FOLD'):
             ck.obligations.append(o)
-    ck.assume('evaluation of the composed miter relies on C10 (composition) whose truth-table clause is undecided')
+    ck.assume('the composition rules of C10 are run as shared rules')
 
 
 def _legal(t, n):
